@@ -82,6 +82,7 @@ CHECKS = {
     "C03": chan("try_send succeeds exactly when the model queue is neither full nor closed, len()/is_full()/capacity() agree with the model after every step, for capacities 1..3, rendezvous and oneshot", "§4 C03, §2 E2"),
     "C04": chan("every order of clone/close/drop/convert on ≤2 handles per side within the bound: drain then Disconnected, Closed hands the value back, closed handles reject every form, close is idempotent (point-to-point flavours and topic)", "§4 C04, §2 E2", extra_jobs=(SEQX_TOPIC,)),
     "C06": chan("idle-stall probe after every explored history: when no task is runnable no pending future/stream may be able to complete; cancellation at every point of every history loses/duplicates nothing", "§4 C06, §2 E2"),
+    "C07": chan("sequential half: every history of sends/batches/receives/clone/close/drop/convert on the broadcast channel (1 sender, ≤2 receivers, capacities 1..3) equals the per-receiver-view model: each receiver sees every value once in order from its creation point, the sender is held back by the slowest open receiver, closing/dropping a receiver releases it", "§4 C07, §12"),
     "C08": {
         "jobs": [SEQX_TOPIC],
         "level": "model_checking",
